@@ -53,7 +53,7 @@ CLS = {
     "default-repeated": "EDefaultRepeated", "default-message": "EDefaultMessage",
     "default-bad-value": "EDefaultBadValue", "json-conflict": "EJsonConflict",
     "enum-json-conflict": "EEnumJsonConflict", "closed-enum-implicit": "EClosedEnumImplicit",
-    "default-implicit": "EDefaultImplicit",
+    "default-implicit": "EDefaultImplicit", "map-enum-first-zero": "EMapEnumFirstZero",
 }
 
 
@@ -640,7 +640,8 @@ class Gen:
                 body.append(mk_field())
             elif k < 12:
                 vt = gen_type()
-                if isinstance(vt, tuple) and vt[1]["kind"] == "enum" and vt[1]["syntax"] == "proto2" and syntax == "proto3":
+                if isinstance(vt, tuple) and vt[1]["kind"] == "enum" and \
+                        ((vt[1]["syntax"] == "proto2" and syntax == "proto3") or (not vt[1]["first_zero"] and r.chance(9, 10))):
                     vt = "int32"
                 vtn = self.spell(fi, fqn, vt[1]) if isinstance(vt, tuple) else vt
                 nm = self.gen_field_name(used_json)
@@ -1644,6 +1645,11 @@ def _corpus():
     add("enum-json-prefix-underscores", P3 + "enum Foo_Bar { FOOBAR_X = 0; FOO_BAR__X = 1; }")
     add("enum-json-prefix-all", P3 + "enum Foo { FOO = 0; FOO_ = 1; }")
     add("enum-json-case", P3 + "enum E { ab_c = 0; AB_C = 1; }")
+    add("map-enum-nonzero", P2 + "enum E { A = 1; } message M { map<int32, E> m = 1; }")
+    add("map-enum-zero", P2 + "enum E { A = 0; B = 1; } message M { map<int32, E> m = 1; }")
+    add("map-enum-second-zero", P2 + "enum E { B = 1; A = 0; } message M { map<string, E> m = 1; optional E e = 2; repeated E r = 3; }")
+    add("map-enum-nonzero-imported", ED + 'import "x.proto"; message M { map<int32, .E> m = 1; }', {"x.proto": P2 + "enum E { A = 7; }"})
+    add("map-enum-nonzero-nested", P2 + "message M { enum E { A = -1; } message N { map<int32, E> m = 1; } }")
     add("p3-closed-enum", P3 + 'import "x.proto"; message M { E e = 1; }', {"x.proto": P2 + "enum E { A = 0; }"})
     add("p3-closed-enum-optional", P3 + 'import "x.proto"; message M { optional E e = 1; }', {"x.proto": P2 + "enum E { A = 0; }"})
     add("p3-closed-enum-repeated", P3 + 'import "x.proto"; message M { repeated E e = 1; }', {"x.proto": P2 + "enum E { A = 0; }"})
